@@ -107,6 +107,8 @@ pub const TARGETS: &[Tgt] = &[Tgt::New, Tgt::One, Tgt::SameLen, Tgt::Big, Tgt::T
 
 #[derive(Clone, Copy, Debug, PartialEq, Eq, Hash, Serialize, Deserialize)]
 pub enum MapOp {
+    /// unsafe insert_unique_unchecked - offered only for absent keys (its contract)
+    InsertUniqueUnchecked(u8),
     /// consume the map by value through for_each (fold) - the map is empty afterwards
     IntoIterForEach,
     /// drain through for_each after one next()
@@ -384,6 +386,10 @@ impl<K: KeyT, V: ValT> MapSut<K, V> {
         inv::check_structure(&d, inv::Which { lawful_hash: lawful }, &|i| {
             map.verif_bucket(i).map(|(k, _)| if alt { env::with(|e| e.plan_b[k.id() as usize]) } else { plan_hash(k.id()) })
         })?;
+        if self.map.hasher().alt != self.alt {
+            return Err(format!("hasher() returns hasher state {} but the map was built with (or cloned from a map with) state {}", self.map.hasher().alt, self.alt));
+        }
+        let _: &CheckAlloc = self.map.allocator();
         if self.map.len() != self.model.len() {
             return Err(format!("len() = {} but the reference holds {} pairs", self.map.len(), self.model.len()));
         }
@@ -593,6 +599,15 @@ impl<K: KeyT, V: ValT> MapHarness<K, V> {
                     }
                 };
                 chk!(c, r == want, "insert({id}) returned {:?}, reference {:?}", r, want);
+            }
+            MapOp::InsertUniqueUnchecked(id) => {
+                let (t1, t2) = (sut.tok(), sut.tok());
+                debug_assert!(sut.mpos(id).is_none());
+                // SAFETY (contract of the method): the key is not in the map
+                let (k, v) = unsafe { sut.map.insert_unique_unchecked(K::make(id, t1), V::make(t2)) };
+                chk!(c, k.id() == id && k.tok() == t1 && v.tok() == t2, "insert_unique_unchecked({id}) returned references to another entry");
+                v.set_tok(t2 ^ 0x0100_0000);
+                sut.model.push((id, t1, t2 ^ 0x0100_0000));
             }
             MapOp::TryInsert(id) => {
                 let (t1, t2) = (sut.tok(), sut.tok());
@@ -1243,6 +1258,9 @@ impl<K: KeyT, V: ValT> Harness for MapHarness<K, V> {
         for &id in &keys {
             if a.try_insert && may_insert(id) {
                 v.push(MapOp::TryInsert(id));
+            }
+            if a.try_insert && sut.mpos(id).is_none() && may_insert(id) {
+                v.push(MapOp::InsertUniqueUnchecked(id));
             }
             if a.remove_variants {
                 v.push(MapOp::RemoveRef(id));
